@@ -30,6 +30,12 @@ INTS = [("uint8", 5), ("int8", 4), ("uint16", 13), ("int16", 12), ("uint32", 29)
         ("uint64", 61), ("int64", 60)]
 
 
+# downward power-of-two scalings (dtype, k): inputs are tuple * 2^-k
+DOWN = [("float32", 10), ("float32", 24), ("float32", 26), ("float32", 30), ("float32", 60), ("float32", 100),
+        ("float64", 10), ("float64", 24), ("float64", 26), ("float64", 30), ("float64", 60), ("float64", 100)]
+DOWN_QUICK = [("float32", 24), ("float32", 26), ("float32", 100), ("float64", 26), ("float64", 30), ("float64", 60)]
+
+
 def pars_of(idx, thorough):
     if idx == "evi":
         if thorough:
@@ -58,9 +64,16 @@ def index_jobs(thorough, rng):
             if scale_invariant(idx, par) or idx == "ebbi":
                 dts += [(d, sh - (sh % 2 if idx == "ebbi" else 0)) for d, sh in INTS]
                 dts += [("float32", 100), ("float64", 20)]
+                # DOWN: band tuples times 2^-k on float inputs (still normal float32 numbers, so the exact rational
+                # is what single precision gives): a guard like |denominator| < eps instead of == 0 shows here
+                down = DOWN if thorough else DOWN_QUICK
+                dts += [(d, -k) for d, k in down]
             if not thorough and idx == "evi":
                 # rotate the dtypes over the parameter combinations instead of the full product
+                inv = scale_invariant(idx, par)
                 dts = [dts[(n + k) % len(dts)] for k in range(4)] + [("float64", 0)]
+                if inv:
+                    dts += [("float32", -26), ("float64", -60)]
             for d, sh in dts:
                 n += 1
                 cells = tf if d.startswith("float") else ti
@@ -87,6 +100,8 @@ def rand_band(rng, n, nonneg):
             v = 0.0
         elif r < 0.5:
             v = float(rng.randint(0, 3000))
+        elif r < 0.62:
+            v = rng.randint(1, 99) * rng.choice([1e-9, 1e-8, 2.0 ** -30])      # tiny but normal: sums far below float32 eps
         else:
             v = round(rng.uniform(0, 1.0) * rng.choice([1, 10, 1000, 12000]), rng.choice([2, 4, 7]))
         if not nonneg and v != "nan" and rng.random() < 0.3:
@@ -104,7 +119,7 @@ def meta_jobs(rng, n):
         b = rand_band(rng, m, rel == "range")
         for k in range(0, m, 7):                 # equal bands / opposite bands: zero numerators and denominators
             b[k] = a[k] if (k // 7) % 2 == 0 or rel == "range" or a[k] == "nan" else -a[k]
-        jobs.append({"kind": "M", "idx": rng.choice(NRF), "rel": rel, "k": rng.choice([-3, -1, 1, 2, 5, 10]),
+        jobs.append({"kind": "M", "idx": rng.choice(NRF), "rel": rel, "k": rng.choice([-60, -40, -26, -24, -3, -1, 1, 2, 5, 10]),
                      "dtype": rng.choice(["float32", "float64"]), "a": a, "b": b})
     return jobs
 
@@ -123,6 +138,26 @@ def color_jobs(rng, thorough):
                 g[1] = "nan"
             jobs.append({"kind": "T", "red": red, "green": g, "blue": b, "nodata": nodata, "dtype": dt,
                          "W": rng.choice([3, 4, 6])})
+    # bands without spread (min == max: the contrast stretch of that band is undefined), constant with NaN holes,
+    # 1x1 / 1xN / Nx1 rasters: alpha depends on the RAW red band only
+    for dt in ["float64", "float32", "uint8", "int32"]:
+        fl = dt.startswith("float")
+        flat = []
+        for red in ([5] * 6, [0] * 6, [1] * 6, [6] * 6, [3] * 6):
+            flat.append((red, [2, 4, 1, 0, 6, 3], [1, 1, 5, 2, 0, 4], 3))
+        if fl:
+            flat.append(([5, "nan", 5, 5, "nan", 5], [2, 4, 1, 0, 6, 3], [1, 1, 5, 2, 0, 4], 3))
+            flat.append((["nan", 0, 0, "nan", 0, 0], [2, 2, 2, 2, 2, 2], [1, 1, 5, 2, 0, 4], 2))
+            flat.append((["nan"], [3], [3], 1))
+        flat.append(([0, 1, 2, 3, 4, 5], [4] * 6, [4] * 6, 3))            # constant green and blue
+        flat.append(([2, 5, 0, 6, 1, 3], [4] * 6, [0, 1, 2, 3, 4, 5], 6))   # 1 x N
+        flat.append(([2, 5, 0, 6, 1, 3], [0, 1, 2, 3, 4, 5], [3] * 6, 1))   # N x 1
+        flat.append(([0, 1, 2, 3, 4, 5, 6], [6, 5, 4, 3, 2, 1, 0], [1] * 7, 7))
+        for v in (4, 0, 1, 6):                                              # 1 x 1
+            flat.append(([v], [v], [2], 1))
+        for k, (red, g, b, W) in enumerate(flat):
+            for nodata in ([None, 0, 3] if thorough else [[None, 0, 3][k % 3]]) + ([2.5] if k % 4 == 0 else []):
+                jobs.append({"kind": "T", "red": red, "green": g, "blue": b, "nodata": nodata, "dtype": dt, "W": W})
     return jobs
 
 
